@@ -289,6 +289,16 @@ func (c *Ctx) c16DoWrite(server, enabled, pd bool, w c16Write) error {
 			werr = conn.Writev(gws.Opcode(w.op), w.slices...)
 		case "WritevAsync":
 			conn.WritevAsync(gws.Opcode(w.op), w.slices, func(e error) { asyncDone <- e })
+		case "Broadcast":
+			b := gws.NewBroadcaster(gws.Opcode(w.op), w.slices[0])
+			werr = b.Broadcast(conn)
+			done := make(chan struct{})
+			conn.Async(func() { close(done) })
+			select {
+			case <-done:
+			case <-time.After(5 * time.Second):
+			}
+			_ = b.Close()
 		}
 	}()
 	if panicked != nil {
@@ -649,6 +659,9 @@ func runC16(c *Ctx) error {
 						return err
 					}
 					if err := c.c16DoWrite(server, en, false, c16Write{"WriteMessage", 0, 2, [][]byte{s}}); err != nil {
+						return err
+					}
+					if err := c.c16DoWrite(server, en, si%2 == 0, c16Write{"Broadcast", 0, 1, [][]byte{s}}); err != nil {
 						return err
 					}
 				}
